@@ -169,6 +169,7 @@ def step (s : DState) (toks : List String) : DState × String :=
   | ["sys.dom", L, dr] => ({ s with sys := { s.sys with dom := some (Dom.ofDr L.toNat! (hexToFloat dr)) } }, "ok")
   | "sys.dens" :: v :: ts => ({ s with sys := { s.sys with dens := s.sys.dens.set (nats ts) (hexToFloat v) } }, "ok")
   | "sys.diam" :: v :: ts => ({ s with sys := { s.sys with diam := s.sys.diam.set (nats ts) (hexToFloat v) } }, "ok")
+  | ["sys.sigma", i, j, v] => ({ s with sys := { s.sys with diam := s.sys.diam.setSigma i.toNat! j.toNat! (hexToFloat v) } }, "ok")
   | ["sys.pot", i, j, "none"] => ({ s with sys := { s.sys with pot := setSym s.sys.pot i.toNat! j.toNat! none } }, "ok")
   | "sys.pot" :: i :: j :: kind :: sg :: ps =>
       let P : PotSpec Float := ⟨pkindOf kind, hexs ps, if sg = "N" then none else some (hexToFloat sg)⟩
@@ -226,6 +227,7 @@ def step (s : DState) (toks : List String) : DState × String :=
       (s, s!"rho {" ".intercalate ((List.range d.n).map fun t => optHex (d.rho t))} total {floatToHex d.total} pair {grid d.n fun i j => floatToHex (d.pair i j)} site {grid d.n fun i j => floatToHex (d.site i j)} check {d.check}")
   | ["diam.new", n] => ({ s with diam := Diam.init n.toNat! }, "ok")
   | "diam.set" :: v :: ts => ({ s with diam := s.diam.set (nats ts) (hexToFloat v) }, "ok")
+  | ["diam.sigma", a, b, v] => ({ s with diam := s.diam.setSigma a.toNat! b.toNat! (hexToFloat v) }, "ok")
   | ["diam.obs"] =>
       let d := s.diam
       (s, s!"diam {" ".intercalate ((List.range d.n).map fun t => optHex (d.diam t))} volume {" ".intercalate ((List.range d.n).map fun t => optHex (d.volume t))} sigma {grid d.n fun i j => optHex (d.sigma i j)} check {d.check}")
